@@ -429,7 +429,7 @@ class GoGen:
         op = 'Add' if k == 'add' else 'Div'
         return s.E('BinaryOp', op=Agg(s.GB.key, s.GB.vindex(op), []), lhs=mkbox(s.atom(declared)), rhs=mkbox(s.atom(declared)), ty=s.T())
     def stmt(s, declared, depth):
-        opts = ['decl'] + (['assign'] if [v for v in declared if v != 'p'] else []) + ['call']
+        opts = ['decl'] + (['assign'] if [v for v in declared if v != 'p'] else []) + ['call'] + (['store'] if getattr(s, 'stores', False) else [])
         if depth == 'branch': opts = [o for o in opts if o != 'decl']
         if depth == 'if': opts = ['if']
         if depth == 'switch': opts = ['switch']
@@ -442,6 +442,12 @@ class GoGen:
             else:
                 name = fresh[0]; e = s.expr(declared); declared.append(name)
                 return s.S('VarDecl', name=mkstr(name), ty=s.T(), value=ms.some(e))
+        if k == 'store':
+            # a store through the parameter: `*p = e`, `p.f = e`, `p[1] = e` - always observable (the target may be aliased)
+            sk = s.ex.choose([(True, 'ptr'), (True, 'field'), (True, 'index')]); val = s.expr(declared); tgt = s.var('p')
+            if sk == 'ptr': return s.S('PointerAssign', pointer=tgt, value=val)
+            if sk == 'field': return s.S('FieldAssign', target=s.E('FieldAccess', obj=mkbox(tgt), field=mkstr('f'), ty=s.T()), value=val)
+            return s.S('IndexAssign', array=tgt, index=s.E('Int', value=mkstr('1'), ty=s.T()), value=val)
         if k == 'assign':
             name = s.ex.choose([(True, v) for v in declared if v != 'p'])
             return s.S('Assignment', name=mkstr(name), value=s.expr(declared, avoid=name))
@@ -483,6 +489,7 @@ class GoEval:
         if n == 'Call':
             fn = ms.pystr(unbox(f['func']).fields[0]); args = tuple(s.term(a, env, trace) for a in f['args'].items)
             trace.append(('call', fn, args)); return ('result', fn, args)
+        if n == 'FieldAccess': return ('field', s.term(f['obj'], env, trace), ms.pystr(f['field']))
         if n == 'BinaryOp':
             a = s.term(f['lhs'], env, trace); b = s.term(f['rhs'], env, trace); op = s.g.GB.variants[f['op'].idx].name
             if op == 'Div' and not (b[0] == 'int' and b[1] != '0'): trace.append(('div', a, b))
@@ -502,6 +509,9 @@ class GoEval:
                 if name != '_':
                     if name not in env: raise UseBeforeDecl('assignment to undeclared ' + name)
                     env[name] = t
+            elif n == 'PointerAssign': trace.append(('store', 'ptr', s.term(f['pointer'], env, trace), s.term(f['value'], env, trace)))
+            elif n == 'FieldAssign': trace.append(('store', 'field', s.term(f['target'], env, trace), s.term(f['value'], env, trace)))
+            elif n == 'IndexAssign': trace.append(('store', 'index', s.term(f['array'], env, trace), s.term(f['index'], env, trace), s.term(f['value'], env, trace)))
             elif n == 'Return':
                 trace.append(('ret', s.term(f['expr'].fields[0], env, trace) if f['expr'].idx == 1 else None)); return
             elif n == 'If':
@@ -537,12 +547,12 @@ class GoEval:
 
 class UseBeforeDecl(Exception): pass
 
-def ob_block_dce(r, tier, seed, nstmts, depth, forms=('atom', 'call', 'add', 'div'), conds=('less',), branch_n=1, first=None):
+def ob_block_dce(r, tier, seed, nstmts, depth, forms=('atom', 'call', 'add', 'div'), conds=('less',), branch_n=1, first=None, stores=False):
     W = e2.fresh_world(CRATES)
     r.bounds = 'Go blocks of %d statements (+ final `return <var>`) over {VarDecl, Assignment, call statement%s}, variables {a, b} and parameter p, initialisers among atom / call / + / integer division; nothing live afterwards' % (nstmts, (', value switch with two cases and an optional default' if depth == 'switch' else ', if/else with %d-statement branches, condition among %s' % (branch_n, list(conds))) if depth else '')
     r.assumptions = ['inputs are well-formed Go by construction (declared before use)', 'an assignment `x = e` never reads x itself: goml has no mutable locals, emitted temporaries are assigned once per path (a kernel counterexample `var a = p; a = a; return a` exists - dce drops the initialiser - but no goml program produces that shape)', 'oracle: translation validation with uninterpreted calls - the sequence of calls (with argument terms), of possibly-failing integer divisions and of branch events, and the returned term, must be identical before and after DCE; every variable read or assigned in the output must be declared there']
     def entry(ex):
-        g = GoGen(W, ex, forms, conds, branch_n); declared = ['p']; g.first = first
+        g = GoGen(W, ex, forms, conds, branch_n); declared = ['p']; g.first = first; g.stores = stores
         blk = g.block(declared, nstmts, 0)
         if depth: blk.fields[0].items.append(g.stmt(declared, 'switch' if depth == 'switch' else 'if'))
         ret = ex.choose([(True, v) for v in declared])
@@ -592,6 +602,7 @@ def describe_block(g, b):
         if n == 'Int': return ms.pystr(f['value'])
         if n == 'Bool': return 'true' if f['value'] else 'false'
         if n == 'Call': return '%s(%s)' % (ex_(f['func']), ', '.join(ex_(a) for a in f['args'].items))
+        if n == 'FieldAccess': return '%s.%s' % (ex_(f['obj']), ms.pystr(f['field']))
         if n == 'BinaryOp': return '%s %s %s' % (ex_(f['lhs']), {'Add': '+', 'Div': '/', 'Less': '<'}.get(g.GB.variants[f['op'].idx].name, '?'), ex_(f['rhs']))
         return n
     out = []
@@ -600,6 +611,9 @@ def describe_block(g, b):
         if n == 'Expr': out.append(ex_(st.fields[0]))
         elif n == 'VarDecl': out.append('var %s%s' % (ms.pystr(f['name']), ' = ' + ex_(f['value'].fields[0]) if f['value'].idx == 1 else ''))
         elif n == 'Assignment': out.append('%s = %s' % (ms.pystr(f['name']), ex_(f['value'])))
+        elif n == 'PointerAssign': out.append('*%s = %s' % (ex_(f['pointer']), ex_(f['value'])))
+        elif n == 'FieldAssign': out.append('%s = %s' % (ex_(f['target']), ex_(f['value'])))
+        elif n == 'IndexAssign': out.append('%s[%s] = %s' % (ex_(f['array']), ex_(f['index']), ex_(f['value'])))
         elif n == 'Return': out.append('return %s' % (ex_(f['expr'].fields[0]) if f['expr'].idx == 1 else ''))
         elif n == 'If': out.append('if %s { %s } else { %s }' % (ex_(f['cond']), describe_block(g, f['then']), describe_block(g, f['else_'].fields[0]) if f['else_'].idx == 1 else ''))
         elif n == 'SwitchExpr': out.append('switch %s { %s%s }' % (ex_(f['expr']), ' '.join('case %s: %s;' % (ex_(cb.fields[0]), describe_block(g, cb.fields[1])) for cb in f['cases'].items), (' default: ' + describe_block(g, f['default'].fields[0])) if f['default'].idx == 1 else ''))
@@ -718,6 +732,8 @@ def obligations():
             Ob('O9.2-block-dce-if2-call', 'block-level DCE: 2 statements (the first a call statement), then if/else, + return', ob_block_dce, ('thorough',), 200, dict(nstmts=2, depth=1, forms=('atom', 'call'), first='call'))]
     obs += [Ob('O9.3-anf-order-arith-d1', 'ANF evaluates the operands of + - * / left to right', ob_anf_order, ('quick', 'thorough'), 3, dict(depth=1, forms=['call1', 'add', 'div', 'sub', 'mul'], top='call')),
             Ob('O9.4-go-lowering-arith-d1', 'Go lowering keeps the operand order of + - * /', ob_go_lowering, ('quick', 'thorough'), 5, dict(depth=1, forms=['call1', 'add', 'div', 'sub', 'mul'], top='call'))]
+    obs += [Ob('O9.2-block-dce-stores', 'block-level DCE keeps every store through a pointer / field / index, in order, with the value it stored: a store, then if/else (stores allowed in the branches), + return', ob_block_dce, ('quick', 'thorough'), 30, dict(nstmts=1, depth=1, forms=('atom', 'call'), stores=True, first='store')),
+            Ob('O9.2-block-dce-stores-decl', 'same: a declaration, then any statement (a store may read the declared variable), + return', ob_block_dce, ('quick', 'thorough'), 30, dict(nstmts=2, depth=0, forms=('atom', 'call'), stores=True, first='decl'))]
     obs += [Ob('O9.3-anf-order-agg-d1', 'ANF evaluates array items, struct initialisers, dynamic-call arguments, negation operands and match scrutinees once, left to right', ob_anf_order, ('quick', 'thorough'), 5, dict(depth=1, forms=['call1', 'array', 'constr', 'dyncall', 'neg', 'matchop'], top='call'))]
     obs += [Ob('O9.4-go-lowering-agg-d1', 'Go lowering keeps the order of array items, negation operands and match scrutinees in operand position (struct literals and dynamic calls need type definitions in the Go environment: ANF level only, O9.3-agg)', ob_go_lowering, ('quick', 'thorough'), 5, dict(depth=1, forms=['call1', 'array', 'neg', 'matchop'], top='call'))]
     obs += [Ob('O9.3-anf-order-go', 'ANF keeps a `go` in tail / let / if position', ob_anf_order, ('quick', 'thorough'), 1, dict(depth=0, forms=[], top='go')),
